@@ -244,14 +244,23 @@ func (s *Session) Exec2(t []string, num func(int) uint64) (obs, viol string, han
 		}
 		o := s.Oracle[int(num(1))]
 		keys := sortedKeys64(o)
+		// C16's catch-all clause on navigation: no call reads more than one node per level
+		budget := func(what string, limit int) {
+			if n := len(s.Store.TakeLoads()); n > limit && viol == "" && s.Cache == nil {
+				viol = fmt.Sprintf("%s read %d nodes of a tree of height %d", what, n, m.Height())
+			}
+		}
+		s.Store.TakeLoads()
 		c, err := m.Cursor(s.ctx)
 		if err != nil {
 			return errClass(err), "Cursor failed: " + err.Error(), true
 		}
+		budget("Cursor()", 1)
 		k := num(2)
 		if err := c.Ceil(s.ctx, s.Cfg.Key(k)); err != nil {
 			return errClass(err), "Ceil failed: " + err.Error(), true
 		}
+		budget("Ceil", int(m.Height())+1)
 		pos := sort.Search(len(keys), func(i int) bool { return keys[i] >= k })
 		off := pos >= len(keys)
 		var got []string
@@ -292,6 +301,7 @@ func (s *Session) Exec2(t []string, num func(int) uint64) (obs, viol string, han
 			if err != nil {
 				return errClass(err), "cursor move failed: " + err.Error(), true
 			}
+			budget("a cursor move", int(m.Height())+1)
 			read()
 		}
 		return strings.Join(got, ","), viol, true
